@@ -921,6 +921,29 @@ impl AddAssign<u8> for Generator {
     }
 }
 
+/// Verification hook (only with `--cfg a4lg_ffuzzy_verif`).
+#[cfg(a4lg_ffuzzy_verif)]
+impl Generator {
+    /// Creates a [`Generator`] object in the exact state it has after
+    /// processing `size` zero bytes (zero bytes never end a piece so only
+    /// the input size, the rolling hash window index and the FNV states of
+    /// the first block hash context differ from the initial state).
+    #[doc(hidden)]
+    pub fn verif_with_prefix_zeroes(size: u64) -> Self {
+        let mut generator = Generator::new();
+        generator.0.input_size = size;
+        for _ in 0..(size % (RollingHash::WINDOW_SIZE as u64)) {
+            generator.0.roll_hash.update_by_byte(0);
+        }
+        // The partial FNV hash has a period of 16 on zero bytes.
+        for _ in 0..(size % 16) {
+            generator.0.bh_context[0].h_full.update_by_byte(0);
+            generator.0.bh_context[0].h_half.update_by_byte(0);
+        }
+        generator
+    }
+}
+
 /// Constant assertions related to this module.
 #[doc(hidden)]
 mod const_asserts {
